@@ -9,7 +9,8 @@ OWN = {
             "terminating_event_clears_composition", "backspace_progress"},
     "C03": {"parts_concatenate_to_input", "splits_punctuation_word_punctuation", "three_conversions_concatenated", "transliteration_is_a_candidate"},
     "C05": {"warm_context_gives_the_same_list", "warm_context_gives_the_same_preselection", "memo_entry_holds_direct_candidates_only",
-            "memo_entries_survive_the_event", "memo_entry_is_keyed_by_the_word"},
+            "memo_entries_survive_the_event", "memo_entry_is_keyed_by_the_word",
+            "context_with_history_gives_the_list_of_a_new_one", "context_with_history_gives_the_preselection_of_a_new_one"},
     "C06": None,   # fixed_session clauses are all C06's; the phonetic glue set is given explicitly in the module
     "C07": {"autocorrect_entry_is_first", "ranked_best_first", "english_candidate_only_when_enabled_and_not_ansi",
             "english_candidate_is_last_and_is_the_typed_text", "no_candidate_twice"},
@@ -20,11 +21,14 @@ OWN = {
             "reload_keeps_the_word_in_progress", "save_replaces_the_whole_file"},
     "C11": {"reloaded_context_equals_a_new_one", "reloaded_list_is_in_use", "configuration_is_replaced", "same_layout_keeps_the_method_and_its_word",
             "changed_layout_replaces_the_method", "later_events_see_the_new_configuration", "method_matches_the_configured_layout",
-            "method_is_new_or_refreshed_by_the_update", "event_result_is_the_methods_result", "events_use_the_contexts_data", "current_method_is_last"},
+            "method_is_new_or_refreshed_by_the_update", "event_result_is_the_methods_result", "events_use_the_contexts_data", "current_method_is_last",
+            "constructor_consults_the_user_files_whatever_the_options"},
     "C15": {"first_candidate_is_the_composed_text", "at_most_nine", "english_candidate_iff_enabled_and_not_ansi_and_different", "english_candidate_is_the_raw_keys",
             "non_emoji_candidates_by_distance", "no_candidate_twice", "dictionary_candidates_are_search_answers_wrapped", "pattern_is_anchored",
             "pattern_has_the_letter_class", "literal_part_has_no_regex_meta_character", "literal_part_is_the_word_without_punctuation", "wildcard_width_by_length",
-            "every_match_is_offered", "shown_text_is_the_dictionary_word_with_blocked_ligatures", "distance_is_computed_from_the_shown_text"},
+            "every_match_is_offered", "shown_text_is_the_dictionary_word_with_blocked_ligatures", "distance_is_computed_from_the_shown_text",
+            # "the last candidate is the raw key text" of *this* word: the raw keys are empty whenever nothing is composed
+            "session_invariant_preserved"},
     "C16": {"ansi_offers_no_emoji_or_raw_text", "english_candidate_only_when_enabled_and_not_ansi", "english_candidate_iff_enabled_and_not_ansi_and_different",
             "suggestion_carries_the_ansi_switch"},
     "C17": {"punctuation_only_left_untouched", "word_untouched", "leading_quotes_open", "trailing_quotes_close", "smart_quotes_keep_length_and_order",
